@@ -1039,6 +1039,11 @@ def _generate_structure_virtual_field_methods(enclosing_type_name, field_ir, ir)
             logical_type=logical_type,
             destination=destination,
             transform=transform,
+            read_from_text_stream_function={
+                "integer": "ReadIntegerFromTextStream",
+                "boolean": "ReadBooleanFromTextStream",
+                "enumeration": "ReadEnumViewFromTextStream",
+            }[field_ir.read_transform.type.which_type],
         )
     else:
         write_methods = ""
